@@ -36,80 +36,152 @@ const c44Cid = "github.com/ipfs/go-cid"
 func runC44(c *an.Ctx) {
 	p := c.P
 	const pv = "provider"
-	rep := p.Func(pv, "reprovider", "Reprovide")
-	fMax := p.Field(pv, "reprovider", "maxReprovideBatchSize")
-	if !c.Need(rep != nil && fMax != nil, "provider.reprovider.Reprovide / field maxReprovideBatchSize") {
+	pkgFns := p.PkgFuncs(pv)
+	// anchors by role: Reprovide = the method named after the Reprovider
+	// interface whose call tree receives from a CID channel; the maximum batch
+	// size field = the field written by the MaxBatchSize option.
+	var rep *ssa.Function
+	for _, f := range pkgFns {
+		if f.Name() == "Reprovide" && f.Signature.Recv() != nil && f.Parent() == nil {
+			for _, g := range c44Tree(f) {
+				if len(c44CidRecvs(g)) > 0 {
+					rep = f
+				}
+			}
+		}
+	}
+	fAllow := c44OptionField(p.Func(pv, "", "Allowlist"))
+	var fMax *types.Var
+	if opt := p.Func(pv, "", "MaxBatchSize"); opt != nil {
+		for _, g := range an.WithClosures(opt) {
+			an.Instrs(g, func(in ssa.Instruction) {
+				if st, ok := in.(*ssa.Store); ok {
+					if f, _ := an.FieldOf(st.Addr); f != nil {
+						for _, r := range an.Roots(st.Val, nil) {
+							if prm, ok := r.(*ssa.Parameter); ok && prm.Parent() == opt {
+								fMax = f
+							}
+						}
+					}
+				}
+			})
+		}
+	}
+	if !c.Need(rep != nil && fMax != nil && fAllow != nil, "provider: a Reprovide method consuming a CID channel / the fields set by the MaxBatchSize and Allowlist options") {
 		return
 	}
-	name := an.FuncName(rep)
+	tree := c44Tree(rep)
+	cx := &c44Ctx{tree: tree, pkg: pkgFns, recvAll: map[*ssa.Function]bool{}, closedAs: map[*ssa.Function]*c44Closed{}}
+	cx.solve()
 
 	// ------------------------------------------------------------------ O1
-	recvs := c44CidRecvs(rep)
-	c.Min("O1 receives from the key channel in Reprovide", len(recvs), 1)
-	blocked := map[ssa.Instruction]bool{}
-	for _, r := range recvs {
-		blocked[r] = true
-	}
-	infeasible, proofs := c44ZeroTripInfeasible(rep)
-	nHdr := 0
-	for _, b := range rep.Blocks {
-		if !c44IsLoopHeader(b) || len(b.Instrs) == 0 {
+	nRecv, nHdr, nClosed, nRet := 0, 0, 0, 0
+	for _, fn := range tree {
+		evs := cx.recvEventsMay(fn)
+		if len(evs) == 0 {
 			continue
 		}
-		if c44BoundedLoop(b) {
-			continue // range over a finite collection / counted loop: bounded by construction
+		name := an.FuncName(fn)
+		nRecv += len(evs)
+		blocked := map[ssa.Instruction]bool{}
+		for _, r := range cx.recvEvents(fn) {
+			blocked[r] = true
 		}
-		nHdr++
-		spin := c44CycleThrough(rep, b, infeasible, blocked)
-		c.Check(!spin, "O1", "R-PROG", name, "loop:"+c44LoopName(b)+"=>consumes-key-channel", c44BlockPos(b),
-			"every iteration of this loop receives from the key channel or returns ("+proofs+")",
-			"a cycle through this loop header neither receives from the key channel nor returns: whenever the drain loop is not entered (trip count 0 because the batch size is 0, or its entry condition is already false, e.g. because entries parked in the pending map count against the limit) the channel is never read, 'all processed' is never set and Reprovide spins forever; entering the drain loop is not proven")
-	}
-	c.Min("O1 uncounted loops in Reprovide", nHdr, 1)
-	// after the channel reported closed: no further receive
-	nClosed := 0
-	for _, r := range recvs {
-		okv := c44RecvOK(r)
-		if okv == nil {
-			c.Bad("O1", "R-PROG", name, "recv-without-ok", r.Pos(), "receive from the key channel without the comma-ok form: a closed channel cannot be told from a zero CID and the loop cannot terminate on close")
-			continue
-		}
-		for e := range an.BoolEdges(rep, []ssa.Value{okv}, false) {
-			nClosed++
-			tgt := map[ssa.Instruction]bool{}
-			for _, r2 := range recvs {
-				tgt[r2] = true
+		infeasible, proofs := cx.zeroTripInfeasible(fn)
+		for _, b := range fn.Blocks {
+			if !c44IsLoopHeader(b) || len(b.Instrs) == 0 || c44BoundedLoop(b) {
+				continue // range over a finite collection / counted loop: bounded by construction
 			}
-			again := c44ReachConst(e, tgt)
-			c.Check(!again, "O1", "R-PROG", name, "key-channel-closed=>no-more-receive", r.Pos(),
-				"after ok==false every path returns without receiving again (flag constants propagated)",
+			nHdr++
+			spin := c44CycleThrough(fn, b, infeasible, blocked)
+			c.Check(!spin, "O1", "R-PROG", name, "loop:"+c44LoopName(b)+"=>consumes-key-channel", c44BlockPos(b),
+				"every iteration of this loop receives from the key channel (directly or through a helper that always does) or returns ("+proofs+")",
+				"a cycle through this loop header neither receives from the key channel nor returns: whenever the drain loop is not entered (trip count 0 because the batch size is 0, or its entry condition is already false, e.g. because entries parked in the pending map count against the limit) the channel is never read, 'all processed' is never set and Reprovide spins forever; entering the drain loop is not proven")
+		}
+		// scenarios in which the key channel has been seen closed
+		type scen struct {
+			from, to *ssa.BasicBlock
+			start    ssa.Instruction
+			env      map[ssa.Value]bool
+			pos      token.Pos
+		}
+		var scens []scen
+		for _, r := range evs {
+			if call, isCall := r.(*ssa.Call); isCall {
+				if !an.Reaches(fn, call, call, nil, nil) {
+					continue // called once: the helper terminates by itself, nothing to report back
+				}
+				cl := cx.closedAs[an.Callee(call).Static]
+				if cl == nil {
+					c.Bad("O1", "R-PROG", name, "helper-reports-closed", r.Pos(), "the helper that reads the key channel does not report 'channel closed' to its caller as a boolean constant: the caller cannot stop reading")
+					continue
+				}
+				res := an.Result(call, cl.idx)
+				if len(res) == 0 {
+					c.Bad("O1", "R-PROG", name, "helper-closed-result-used", r.Pos(), "the 'channel closed' result of the key-reading helper is ignored: the loop cannot terminate on close")
+					continue
+				}
+				scens = append(scens, scen{start: call, env: map[ssa.Value]bool{res[0]: cl.val}, pos: r.Pos()})
+				continue
+			}
+			okv := c44RecvOK(r)
+			if okv == nil {
+				c.Bad("O1", "R-PROG", name, "recv-without-ok", r.Pos(), "receive from the key channel without the comma-ok form: a closed channel cannot be told from a zero CID and the loop cannot terminate on close")
+				continue
+			}
+			for e := range an.BoolEdges(fn, []ssa.Value{okv}, false) {
+				scens = append(scens, scen{from: e.From, to: e.From.Succs[e.Succ], pos: r.Pos()})
+			}
+		}
+		tgt := map[ssa.Instruction]bool{}
+		for _, r := range evs {
+			tgt[r] = true
+		}
+		for _, sc := range scens {
+			nClosed++
+			again := c44Walk(c44WalkOpts{from: sc.from, to: sc.to, start: sc.start, env: sc.env, targets: tgt})
+			c.Check(!again, "O1", "R-PROG", name, "key-channel-closed=>no-more-receive", sc.pos,
+				"after the channel was seen closed every path returns without receiving again (flag constants propagated)",
 				"after the key channel is closed a path leads back to a receive: the 'all processed' flag is not set to true on the closed edge (or not tested by the loop), so Reprovide never terminates")
 		}
-	}
-	c.Min("O1 closed-channel edges", nClosed, 1)
-	// the pass reports success only after the key channel was seen closed
-	closedEdges := an.EdgeSet{}
-	for _, r := range recvs {
-		if okv := c44RecvOK(r); okv != nil {
-			closedEdges = closedEdges.Union(an.BoolEdges(rep, []ssa.Value{okv}, false))
+		// success is reported only after the key channel was seen closed
+		if fn == rep || cx.errorReturning(fn) {
+			cut := an.EdgeSet{}
+			assume := map[ssa.Instruction]c44Assume{}
+			for _, r := range evs {
+				if call, isCall := r.(*ssa.Call); isCall {
+					if cl := cx.closedAs[an.Callee(call).Static]; cl != nil {
+						if res := an.Result(call, cl.idx); len(res) > 0 {
+							assume[call] = c44Assume{res[0], !cl.val}
+						}
+					}
+					continue
+				}
+				if okv := c44RecvOK(r); okv != nil {
+					cut = cut.Union(an.BoolEdges(fn, []ssa.Value{okv}, false))
+				}
+			}
+			for _, r := range an.Returns(fn) {
+				n := len(r.Results)
+				if n == 0 || !an.IsErrorType(r.Results[n-1].Type()) || !an.IsNilConst(c22RetVal(r, n-1)) {
+					continue
+				}
+				nRet++
+				early := c44Walk(c44WalkOpts{to: fn.Blocks[0], cut: cut, assume: assume, targets: map[ssa.Instruction]bool{r: true}})
+				c.Check(!early, "O1", "R-DOM", name, "return-nil<=key-channel-closed", r.Pos(),
+					"nil is returned only after the key channel reported closed (flag constants propagated)",
+					"Reprovide can return nil (or leave its loop) without having seen the key channel closed, e.g. on an empty or failed batch: the keys still in the channel are never announced although the pass reports success")
+			}
 		}
 	}
-	nRet := 0
-	for _, r := range an.Returns(rep) {
-		if n := len(r.Results); n == 0 || !an.IsNilConst(c22RetVal(r, n-1)) {
-			continue
-		}
-		nRet++
-		early := c44ReachConstCut(nil, rep.Blocks[0], closedEdges, map[ssa.Instruction]bool{r: true})
-		c.Check(!early, "O1", "R-DOM", name, "return-nil<=key-channel-closed", r.Pos(),
-			"Reprovide returns nil only after the key channel reported closed (flag constants propagated)",
-			"Reprovide can return nil (or leave its loop) without having seen the key channel closed, e.g. on an empty or failed batch: the keys still in the channel are never announced although the pass reports success")
-	}
-	c.Min("O1 success returns of Reprovide", nRet, 1)
+	c.Min("O1 receives from the key channel in the Reprovide call tree", nRecv, 1)
+	c.Min("O1 uncounted loops in the Reprovide call tree", nHdr, 1)
+	c.Min("O1 closed-channel scenarios", nClosed, 1)
+	c.Min("O1 success returns", nRet, 1)
 
 	// ------------------------------------------------------------------ O2
 	nVal := 0
-	for _, fn := range p.PkgFuncs(pv) {
+	for _, fn := range pkgFns {
 		for _, v := range an.Calls(fn, an.M("verifcid", "", "ValidateCid")) {
 			args := an.Args(v)
 			if len(args) != 2 {
@@ -117,7 +189,13 @@ func runC44(c *an.Ctx) {
 			}
 			nVal++
 			fname := an.FuncName(fn)
-			c.Check(strings.HasSuffix(an.PathOf(args[0]), ".allowlist"), "O2", "R-FLOW", fname, "ValidateCid-allowlist-operand", v.Pos(),
+			okAllow := false
+			if u, ok := args[0].(*ssa.UnOp); ok && u.Op == token.MUL {
+				if f, _ := an.FieldOf(u.X); f != nil && f == fAllow {
+					okAllow = true
+				}
+			}
+			c.Check(okAllow, "O2", "R-FLOW", fname, "ValidateCid-allowlist-operand", v.Pos(),
 				"validated against the configured allowlist field", "ValidateCid is not given the reprovider's configured allowlist ("+an.PathOf(args[0])+"): a custom Allowlist option is ignored and rejected hashes are announced")
 			cv := args[1]
 			nUse := 0
@@ -140,103 +218,99 @@ func runC44(c *an.Ctx) {
 	}
 	c.Min("O2 ValidateCid calls in package provider", nVal, 2)
 
-	provs := an.Calls(rep, an.M(pv, "", "doProvideMany"))
-	c.Min("O2 doProvideMany calls in Reprovide", len(provs), 1)
-	for _, pc := range provs {
-		keys := an.Args(pc)[2]
-		fresh, elems, why := c44SliceBuild(keys)
-		if why != "" {
-			c.Bad("O2", "R-FLOW", name, "keys-provenance", pc.Pos(), "the key slice given to doProvideMany is not built by make+append in this function ("+why+"): unvalidated keys may be announced")
-			continue
-		}
-		okAll := len(elems) > 0
-		var bad string
-		for _, e := range elems {
-			hc, ok := an.IsCallTo(e, an.M(c44Cid, "Cid", "Hash"))
-			if !ok {
-				okAll, bad = false, an.PathOf(e)
-				break
-			}
-			// the hashed CID must be one validated in this function
-			val := false
-			for _, v := range an.Calls(rep, an.M("verifcid", "", "ValidateCid")) {
-				if an.Args(v)[1] == an.Recv(hc) && an.OnNilEdgeOf(rep, v, hc) {
-					val = true
-				}
-			}
-			if !val {
-				okAll, bad = false, "Hash of an unvalidated CID"
-				break
-			}
-		}
-		c.Check(okAll, "O2", "R-FLOW", name, "keys=Hash(validated)", pc.Pos(), "every announced key is c.Hash() of a CID validated on the nil edge",
-			"an element of the announced key slice is "+bad+": not the multihash of a validated CID")
-		// fresh slice per batch
-		mk := map[ssa.Instruction]bool{}
-		for _, f := range fresh {
-			mk[f] = true
-		}
-		c.Check(len(fresh) > 0 && !an.Reaches(rep, pc, pc, nil, mk), "O2", "R-POST", name, "keys-fresh-per-batch", pc.Pos(),
-			"a new key slice is made between two announcements", "the key slice is not re-made between two doProvideMany calls: keys are announced again and batches grow beyond the limit")
-		// appended CID removed from the pending map before the next map step
-		for _, e := range elems {
-			hc, ok := an.IsCallTo(e, an.M(c44Cid, "Cid", "Hash"))
-			if !ok {
+	nProv := 0
+	for _, fn := range tree {
+		name := an.FuncName(fn)
+		for _, pc := range an.AllCalls(fn) {
+			g := an.Callee(pc).Static
+			if g == nil || !c44IsAnnouncer(g) {
 				continue
 			}
-			cv := an.Recv(hc)
-			dels := map[ssa.Instruction]bool{}
-			for _, d := range an.Calls(rep, an.M("builtin", "", "delete")) {
-				if a := d.Common().Args; len(a) == 2 && a[1] == cv {
-					dels[d] = true
+			nProv++
+			var keys ssa.Value
+			for _, a := range pc.Common().Args {
+				if c44IsMhSlice(a.Type()) {
+					keys = a
 				}
 			}
-			okDel := len(dels) > 0
-			an.Instrs(rep, func(in ssa.Instruction) {
-				if _, isNext := in.(*ssa.Next); isNext && an.Reaches(rep, hc, in, nil, dels) {
+			kb := c44KeysBuild(fn, keys, 0)
+			if kb.why != "" {
+				c.Bad("O2", "R-FLOW", name, "keys-provenance", pc.Pos(), "the key slice given to "+g.Name()+" is not built by make+append of validated hashes here or in a local helper ("+kb.why+"): unvalidated keys may be announced")
+				continue
+			}
+			c.Check(kb.badElem == "", "O2", "R-FLOW", name, "keys=Hash(validated)", pc.Pos(), "every announced key is c.Hash() of a CID validated on the nil edge",
+				"an element of the announced key slice is "+kb.badElem+": not the multihash of a validated CID")
+			mk := map[ssa.Instruction]bool{}
+			for _, f := range kb.fresh {
+				mk[f] = true
+			}
+			c.Check(len(kb.fresh) > 0 && !an.Reaches(fn, pc, pc, nil, mk), "O2", "R-POST", name, "keys-fresh-per-batch", pc.Pos(),
+				"a new key slice is made between two announcements", "the key slice is not re-made between two announcements: keys are announced again and batches grow beyond the limit")
+			for _, hs := range kb.hashes {
+				hfn := hs.Parent()
+				cv := an.Recv(hs)
+				dels := map[ssa.Instruction]bool{}
+				for _, d := range an.Calls(hfn, an.M("builtin", "", "delete")) {
+					if a := d.Common().Args; len(a) == 2 && a[1] == cv {
+						dels[d] = true
+					}
+				}
+				okDel := len(dels) > 0
+				an.Instrs(hfn, func(in ssa.Instruction) {
+					if _, isNext := in.(*ssa.Next); isNext && an.Reaches(hfn, hs, in, nil, dels) {
+						okDel = false
+					}
+				})
+				for _, r := range an.Returns(hfn) {
+					if okDel && an.Reaches(hfn, hs, r, nil, dels) {
+						okDel = false
+					}
+				}
+				if okDel && hfn == fn && an.Reaches(fn, hs, pc, nil, dels) {
 					okDel = false
 				}
-			})
-			if okDel && an.Reaches(rep, hc, pc, nil, dels) {
-				okDel = false
+				c.Check(okDel, "O2", "R-PAIR", an.FuncName(hfn), "append-key=>delete-pending", hs.Pos(), "the announced CID leaves the pending map in the same step",
+					"a CID appended to the batch is not deleted from the pending map on every path: it is announced again with every later batch and the batch exceeds the configured maximum")
 			}
-			c.Check(okDel, "O2", "R-PAIR", name, "append-key=>delete-pending", hc.Pos(), "the announced CID leaves the pending map in the same step",
-				"a CID appended to the batch is not deleted from the pending map on every path: it is announced again with every later batch and the batch exceeds the configured maximum")
 		}
 	}
+	c.Min("O2 announcer calls in the Reprovide call tree", nProv, 1)
 
 	// ------------------------------------------------------------------ O3
 	nIns := 0
-	an.Instrs(rep, func(in ssa.Instruction) {
-		mu, ok := in.(*ssa.MapUpdate)
-		if !ok || !c44IsCidKeyedMap(mu.Map.Type()) {
-			return
-		}
-		nIns++
-		// every cycle through the insert passes a counted compare
-		cmp := map[ssa.Instruction]bool{}
-		an.Instrs(rep, func(x ssa.Instruction) {
-			if ifi, ok := x.(*ssa.If); ok && (c44CountedCompare(ifi.Cond) || c44LenCompare(ifi.Cond, mu.Map)) {
-				cmp[x] = true
+	for _, fn := range tree {
+		name := an.FuncName(fn)
+		an.Instrs(fn, func(in ssa.Instruction) {
+			mu, ok := in.(*ssa.MapUpdate)
+			if !ok || !c44IsCidKeyedMap(mu.Map.Type()) {
+				return
+			}
+			nIns++
+			// every cycle through the insert passes a counted compare
+			cmp := map[ssa.Instruction]bool{}
+			an.Instrs(fn, func(x ssa.Instruction) {
+				if ifi, ok := x.(*ssa.If); ok && (c44CountedCompare(ifi.Cond) || c44LenCompare(ifi.Cond, mu.Map)) {
+					cmp[x] = true
+				}
+			})
+			bounded := len(cmp) > 0 && !an.Reaches(fn, in, in, nil, cmp)
+			c.Check(bounded, "O3", "R-PROG", name, "pending-insert-in-counted-loop", in.Pos(),
+				"inserts into the pending map repeat only under a counted loop (or a len(map) < bound guard)", "the pending map is filled in a cycle that is bounded neither by a counter nor by a len(map) < bound test: batches are unbounded")
+			if !bounded {
+				return
+			}
+			for x := range cmp {
+				// compares lying on a cycle through the insert
+				if !(an.Reaches(fn, in, x, nil, nil) && an.Reaches(fn, x, in, nil, nil)) {
+					continue
+				}
+				b := c44Atom(x.(*ssa.If).Cond).(*ssa.BinOp).Y
+				ok, why := cx.upperBounded(fn, b, fMax, 0)
+				c.Check(ok, "O3", "R-CMP", name, "batch-bound<=maxReprovideBatchSize", in.Pos(),
+					"the counter bound is provably <= the configured maximum batch size", "the bound of the drain loop is not provably <= the configured maximum batch size ("+why+"): batches larger than the configured maximum are announced")
 			}
 		})
-		bounded := len(cmp) > 0 && !an.Reaches(rep, in, in, nil, cmp)
-		c.Check(bounded, "O3", "R-PROG", name, "pending-insert-in-counted-loop", in.Pos(),
-			"inserts into the pending map repeat only under a counted loop (or a len(map) < bound guard)", "the pending map is filled in a cycle that is bounded neither by a counter nor by a len(map) < bound test: batches are unbounded")
-		if !bounded {
-			return
-		}
-		for x := range cmp {
-			// compares lying on a cycle through the insert
-			if !(an.Reaches(rep, in, x, nil, nil) && an.Reaches(rep, x, in, nil, nil)) {
-				continue
-			}
-			b := c44Atom(x.(*ssa.If).Cond).(*ssa.BinOp).Y
-			ok, why := c44UpperBounded(rep, b, fMax, 0)
-			c.Check(ok, "O3", "R-CMP", name, "batch-bound<=maxReprovideBatchSize", in.Pos(),
-				"the counter bound is provably <= the configured maximum batch size", "the bound of the drain loop is not provably <= maxReprovideBatchSize ("+why+"): batches larger than the configured maximum are announced")
-		}
-	})
+	}
 	c.Min("O3 inserts into the pending CID map", nIns, 1)
 
 	// ------------------------------------------------------------------ O4
@@ -245,7 +319,8 @@ func runC44(c *an.Ctx) {
 		return
 	}
 	nSend, nCall := 0, 0
-	for _, fn := range an.WithClosures(npp) {
+	nppTree := c44Tree(npp)
+	for _, fn := range nppTree {
 		fname := an.FuncName(fn)
 		var sends, recvSel []*ssa.Select
 		an.Instrs(fn, func(in ssa.Instruction) {
@@ -318,17 +393,29 @@ func runC44(c *an.Ctx) {
 		}
 		// calls of the stream handler: markVisited argument and error path
 		for _, call := range an.AllCalls(fn) {
-			mc, ok := call.Common().Value.(*ssa.MakeClosure)
-			if !ok {
+			// the stream handler: a closure or local function whose call tree
+			// sends on a CID channel
+			var g *ssa.Function
+			if mc, ok := call.Common().Value.(*ssa.MakeClosure); ok {
+				g = mc.Fn.(*ssa.Function)
+			} else if h := an.Callee(call).Static; h != nil && h.Pkg == npp.Pkg {
+				g = h
+			}
+			if g == nil || g == fn || !c44SendsDeep(g) {
 				continue
 			}
-			g := mc.Fn.(*ssa.Function)
-			if g.Parent() != fn || !c44HasCidSend(g) {
+			if _, isGo := call.(*ssa.Go); isGo {
 				continue
 			}
-			nCall++
+			forwarded := false
+			top := false
 			for i, prm := range g.Params {
-				if b, ok := prm.Type().Underlying().(*types.Basic); ok && b.Kind() == types.Bool {
+				if b, ok := prm.Type().Underlying().(*types.Basic); ok && b.Kind() == types.Bool && i < len(call.Common().Args) {
+					if _, isPrm := call.Common().Args[i].(*ssa.Parameter); isPrm {
+						forwarded = true // a wrapper passing its own flag on: judged at the outer call
+						continue
+					}
+					top = true
 					st, why := c44NonLastArg(call.Common().Args[i])
 					switch st {
 					case 1:
@@ -340,6 +427,10 @@ func runC44(c *an.Ctx) {
 					}
 				}
 			}
+			if forwarded && !top {
+				continue
+			}
+			nCall++
 			// error of one stream must not leave the loop over streams
 			if errs := an.ErrResult(call); len(errs) > 0 {
 				hdr := c44EnclosingLoop(call.Block())
@@ -460,57 +551,422 @@ func c44ProvideAll(c *an.Ctx) {
 // every exit; otherwise Reprovide waits on the channel forever.
 func c44CloseOutput(c *an.Ctx, npp *ssa.Function) {
 	n := 0
-	for _, fn := range an.WithClosures(npp) {
-		par := fn.Parent()
-		if par == nil {
-			continue
-		}
-		isGo := false
-		an.Instrs(par, func(in ssa.Instruction) {
-			if g, ok := in.(*ssa.Go); ok {
-				if mc, ok := g.Call.Value.(*ssa.MakeClosure); ok && mc.Fn == fn {
-					isGo = true
-				}
+	for _, par := range c44Tree(npp) {
+		for _, in := range an.AllCalls(par) {
+			g, ok := in.(*ssa.Go)
+			if !ok {
+				continue
 			}
-		})
-		if !isGo {
-			continue
-		}
-		chans := map[string]bool{}
-		for _, g := range an.WithClosures(fn) {
-			an.Instrs(g, func(in ssa.Instruction) {
-				if s, ok := in.(*ssa.Select); ok {
-					for _, st := range s.States {
-						if st.Dir == types.SendOnly && c44IsCidChan(st.Chan.Type()) {
-							chans[an.PathOf(st.Chan)] = true
-						}
-					}
-				}
-				if s, ok := in.(*ssa.Send); ok && c44IsCidChan(s.Chan.Type()) {
-					chans[an.PathOf(s.Chan)] = true
-				}
-			})
-		}
-		for ch := range chans {
+			var fn *ssa.Function
+			if mc, ok := g.Call.Value.(*ssa.MakeClosure); ok {
+				fn = mc.Fn.(*ssa.Function)
+			} else if h := an.Callee(g).Static; h != nil {
+				fn = h
+			}
+			if fn == nil || fn.Blocks == nil || !c44SendsDeep(fn) {
+				continue
+			}
 			n++
 			var closes []ssa.Instruction
 			for _, call := range an.AllCalls(fn) {
-				if an.Callee(call).Builtin == "close" && an.PathOf(call.Common().Args[0]) == ch {
+				if an.Callee(call).Builtin == "close" && c44IsCidChan(call.Common().Args[0].Type()) {
 					closes = append(closes, call)
 				}
 			}
-			ok := len(closes) > 0
+			ok2 := len(closes) > 0
 			for _, r := range an.Returns(fn) {
 				if !an.MustPrecede(fn, r, closes) {
-					ok = false
+					ok2 = false
 				}
 			}
-			c.Check(ok, "O6", "R-POST", an.FuncName(fn), "feeder-goroutine=>close(out)", fn.Pos(),
+			c.Check(ok2, "O6", "R-POST", an.FuncName(fn), "feeder-goroutine=>close(out)", fn.Pos(),
 				"the output channel is closed (deferred or explicit) before every return of the feeding goroutine",
 				"the goroutine feeding the prioritized output channel can end without closing it: the consumer (Reprovide) blocks on the receive forever and never terminates")
 		}
 	}
-	c.Min("O6 output channels of feeder goroutines", n, 1)
+	c.Min("O6 feeder goroutines of the prioritized provider", n, 1)
+}
+
+// ---------------------------------------------------------------- call tree of Reprovide
+
+// package functions of the analysed tree (set by runC44; used to follow
+// parameters of local helpers to their call sites)
+var c44PkgFns []*ssa.Function
+
+func c44ParamIndex(p *ssa.Parameter) int {
+	for i, q := range p.Parent().Params {
+		if q == p {
+			return i
+		}
+	}
+	return -1
+}
+
+// c44CallSites: static plain calls of fn in the package.
+func c44CallSites(fn *ssa.Function) []ssa.CallInstruction {
+	var out []ssa.CallInstruction
+	for _, g := range c44PkgFns {
+		for _, call := range an.AllCalls(g) {
+			if an.Callee(call).Static == fn {
+				out = append(out, call)
+			}
+		}
+	}
+	return out
+}
+
+// c44OptionField: the struct field that the option constructor opt stores its
+// parameter into (in the closure it returns).
+func c44OptionField(opt *ssa.Function) *types.Var {
+	if opt == nil {
+		return nil
+	}
+	var out *types.Var
+	for _, g := range an.WithClosures(opt) {
+		an.Instrs(g, func(in ssa.Instruction) {
+			if st, ok := in.(*ssa.Store); ok {
+				if f, _ := an.FieldOf(st.Addr); f != nil {
+					for _, r := range an.Roots(st.Val, nil) {
+						if prm, ok := r.(*ssa.Parameter); ok && prm.Parent() == opt {
+							out = f
+						}
+					}
+				}
+			}
+		})
+	}
+	return out
+}
+
+// c44Tree: f, the closures nested in it and the package-local functions it
+// calls statically (transitively).
+func c44Tree(f *ssa.Function) []*ssa.Function {
+	seen := map[*ssa.Function]bool{}
+	var out []*ssa.Function
+	var add func(g *ssa.Function)
+	add = func(g *ssa.Function) {
+		if g == nil || seen[g] || g.Blocks == nil {
+			return
+		}
+		seen[g] = true
+		out = append(out, g)
+		for _, a := range g.AnonFuncs {
+			add(a)
+		}
+		for _, call := range an.AllCalls(g) {
+			if h := an.Callee(call).Static; h != nil && h.Pkg != nil && f.Pkg != nil && h.Pkg == f.Pkg {
+				add(h)
+			}
+		}
+	}
+	add(f)
+	return out
+}
+
+// c44Closed: a helper reports "key channel closed" as boolean constant val in result idx.
+type c44Closed struct {
+	idx int
+	val bool
+}
+
+type c44Ctx struct {
+	tree, pkg []*ssa.Function
+	recvAll   map[*ssa.Function]bool // every path through the function receives from the key channel
+	closedAs  map[*ssa.Function]*c44Closed
+}
+
+func (cx *c44Ctx) inTree(g *ssa.Function) bool {
+	for _, f := range cx.tree {
+		if f == g {
+			return true
+		}
+	}
+	return false
+}
+
+func (cx *c44Ctx) errorReturning(fn *ssa.Function) bool {
+	rs := fn.Signature.Results()
+	return rs.Len() > 0 && an.IsErrorType(rs.At(rs.Len()-1).Type())
+}
+
+// recvEvents: receives on a CID channel in fn, plus calls of tree functions
+// that receive on every path.
+func (cx *c44Ctx) recvEvents(fn *ssa.Function) []ssa.Instruction {
+	out := c44CidRecvs(fn)
+	for _, call := range an.AllCalls(fn) {
+		if cv, ok := call.(*ssa.Call); ok {
+			if h := an.Callee(call).Static; h != nil && h != fn && cx.recvAll[h] {
+				out = append(out, cv)
+			}
+		}
+	}
+	return out
+}
+
+// recvEventsMay: receives in fn plus calls of tree functions that may receive.
+func (cx *c44Ctx) recvEventsMay(fn *ssa.Function) []ssa.Instruction {
+	out := c44CidRecvs(fn)
+	for _, call := range an.AllCalls(fn) {
+		if cv, ok := call.(*ssa.Call); ok {
+			if h := an.Callee(call).Static; h != nil && h != fn && h.Parent() == nil && cx.inTree(h) && cx.mayRecv(h, 0) {
+				out = append(out, cv)
+			}
+		}
+	}
+	return out
+}
+
+func (cx *c44Ctx) mayRecv(h *ssa.Function, depth int) bool {
+	if depth > 4 {
+		return false
+	}
+	if len(c44CidRecvs(h)) > 0 {
+		return true
+	}
+	for _, call := range an.AllCalls(h) {
+		if _, ok := call.(*ssa.Call); ok {
+			if g := an.Callee(call).Static; g != nil && g != h && g.Parent() == nil && cx.inTree(g) && cx.mayRecv(g, depth+1) {
+				return true
+			}
+		}
+	}
+	return false
+}
+
+func (cx *c44Ctx) zeroTripInfeasible(fn *ssa.Function) (an.EdgeSet, string) {
+	return c44ZeroTripInfeasible(fn)
+}
+
+func (cx *c44Ctx) upperBounded(fn *ssa.Function, v ssa.Value, fMax *types.Var, depth int) (bool, string) {
+	return c44UpperBounded(fn, v, fMax, depth)
+}
+
+func (cx *c44Ctx) solve() {
+	c44PkgFns = cx.pkg
+	for changed := true; changed; {
+		changed = false
+		for _, h := range cx.tree {
+			if h.Parent() != nil {
+				continue
+			}
+			evs := cx.recvEvents(h)
+			if len(evs) == 0 {
+				continue
+			}
+			blocked := map[ssa.Instruction]bool{}
+			for _, e := range evs {
+				blocked[e] = true
+			}
+			cut, _ := c44ZeroTripInfeasible(h)
+			all := true
+			for _, r := range an.Returns(h) {
+				if an.Reaches(h, nil, r, cut, blocked) {
+					all = false
+				}
+			}
+			if all != cx.recvAll[h] {
+				cx.recvAll[h] = all
+				changed = true
+			}
+			// does h report "closed" as a boolean constant?
+			if cx.closedAs[h] == nil {
+				if cl := cx.closedResult(h, cx.recvEventsMay(h)); cl != nil {
+					cx.closedAs[h] = cl
+					changed = true
+				}
+			}
+		}
+	}
+}
+
+// closedResult: a boolean result of h that is the constant k on every return
+// reachable after the key channel was seen closed, and !k on every return
+// reachable without that.
+func (cx *c44Ctx) closedResult(h *ssa.Function, evs []ssa.Instruction) *c44Closed {
+	rs := h.Signature.Results()
+	for i := 0; i < rs.Len(); i++ {
+		if b, ok := rs.At(i).Type().Underlying().(*types.Basic); !ok || b.Kind() != types.Bool {
+			continue
+		}
+		cut := an.EdgeSet{}
+		assume := map[ssa.Instruction]c44Assume{}
+		type start struct {
+			from, to *ssa.BasicBlock
+			at       ssa.Instruction
+			env      map[ssa.Value]bool
+		}
+		var starts []start
+		for _, r := range evs {
+			if call, isCall := r.(*ssa.Call); isCall {
+				cl := cx.closedAs[an.Callee(call).Static]
+				if cl == nil {
+					return nil
+				}
+				res := an.Result(call, cl.idx)
+				if len(res) == 0 {
+					return nil
+				}
+				assume[call] = c44Assume{res[0], !cl.val}
+				starts = append(starts, start{at: call, env: map[ssa.Value]bool{res[0]: cl.val}})
+				continue
+			}
+			okv := c44RecvOK(r)
+			if okv == nil {
+				return nil
+			}
+			for e := range an.BoolEdges(h, []ssa.Value{okv}, false) {
+				cut[e] = true
+				starts = append(starts, start{from: e.From, to: e.From.Succs[e.Succ]})
+			}
+		}
+		if len(starts) == 0 {
+			continue
+		}
+		var k *bool
+		ok := true
+		for _, r := range an.Returns(h) {
+			kc, isK := r.Results[i].(*ssa.Const)
+			closedReach := false
+			for _, st := range starts {
+				if c44Walk(c44WalkOpts{from: st.from, to: st.to, start: st.at, env: st.env, targets: map[ssa.Instruction]bool{r: true}}) {
+					closedReach = true
+				}
+			}
+			openReach := c44Walk(c44WalkOpts{to: h.Blocks[0], cut: cut, assume: assume, targets: map[ssa.Instruction]bool{r: true}})
+			if !closedReach && !openReach {
+				continue
+			}
+			if !isK || kc.Value == nil || kc.Value.Kind() != constant.Bool || (closedReach && openReach) {
+				ok = false
+				break
+			}
+			v := constant.BoolVal(kc.Value)
+			want := v
+			if openReach {
+				want = !v
+			}
+			if k == nil {
+				k = &want
+			} else if *k != want {
+				ok = false
+				break
+			}
+		}
+		if ok && k != nil {
+			return &c44Closed{idx: i, val: *k}
+		}
+	}
+	return nil
+}
+
+func c44IsMhSlice(t types.Type) bool {
+	sl, ok := t.Underlying().(*types.Slice)
+	return ok && an.TypeIs(sl.Elem(), "github.com/multiformats/go-multihash", "Multihash")
+}
+
+// c44IsAnnouncer: a package function with a []Multihash parameter that hands
+// keys to the router (ProvideMany / Provide).
+func c44IsAnnouncer(g *ssa.Function) bool {
+	has := false
+	for _, prm := range g.Params {
+		if c44IsMhSlice(prm.Type()) {
+			has = true
+		}
+	}
+	if !has || g.Blocks == nil {
+		return false
+	}
+	for _, call := range an.AllCalls(g) {
+		if ci := an.Callee(call); ci.Invoke && (ci.Name == "ProvideMany" || ci.Name == "Provide") {
+			return true
+		}
+	}
+	return false
+}
+
+type c44Keys struct {
+	fresh   []ssa.Instruction // instructions of the analysed function that produce a fresh slice
+	hashes  []*ssa.Call       // the c.Hash() calls whose results are appended
+	badElem string
+	why     string
+}
+
+// c44KeysBuild analyses how a key slice is built: make + append of c.Hash() of
+// validated CIDs in fn, or the result of a local helper that builds it so.
+func c44KeysBuild(fn *ssa.Function, v ssa.Value, depth int) c44Keys {
+	var out c44Keys
+	if depth > 3 || v == nil {
+		out.why = "key slice not found"
+		return out
+	}
+	idx := 0
+	call, _ := v.(*ssa.Call)
+	if e, ok := v.(*ssa.Extract); ok {
+		idx = e.Index
+		call, _ = e.Tuple.(*ssa.Call)
+	}
+	if call != nil {
+		if h := an.Callee(call).Static; h != nil && h.Pkg == fn.Pkg && h.Blocks != nil && an.Callee(call).Builtin == "" {
+			n := 0
+			for _, r := range an.Returns(h) {
+				if idx >= len(r.Results) {
+					continue
+				}
+				n++
+				sub := c44KeysBuild(h, r.Results[idx], depth+1)
+				if sub.why != "" {
+					out.why = "via " + h.Name() + ": " + sub.why
+					return out
+				}
+				mk := map[ssa.Instruction]bool{}
+				for _, f := range sub.fresh {
+					mk[f] = true
+				}
+				if len(sub.fresh) == 0 || an.Reaches(h, nil, r, nil, mk) {
+					out.why = "helper " + h.Name() + " can return a slice it did not make"
+					return out
+				}
+				out.hashes = append(out.hashes, sub.hashes...)
+				if sub.badElem != "" {
+					out.badElem = sub.badElem
+				}
+			}
+			if n == 0 {
+				out.why = "helper " + h.Name() + " returns nothing"
+				return out
+			}
+			out.fresh = []ssa.Instruction{call}
+			return out
+		}
+	}
+	fresh, elems, why := c44SliceBuild(v)
+	if why != "" {
+		out.why = why
+		return out
+	}
+	out.fresh = fresh
+	if len(elems) == 0 {
+		out.badElem = "never filled"
+	}
+	for _, e := range elems {
+		hc, ok := an.IsCallTo(e, an.M(c44Cid, "Cid", "Hash"))
+		if !ok {
+			out.badElem = an.PathOf(e)
+			continue
+		}
+		val := false
+		for _, vc := range an.Calls(fn, an.M("verifcid", "", "ValidateCid")) {
+			if an.Args(vc)[1] == an.Recv(hc) && an.OnNilEdgeOf(fn, vc, hc) {
+				val = true
+			}
+		}
+		if !val {
+			out.badElem = "Hash of an unvalidated CID"
+			continue
+		}
+		out.hashes = append(out.hashes, hc)
+	}
+	return out
 }
 
 // ---------------------------------------------------------------- helpers
@@ -855,6 +1311,18 @@ func c44Positive(fn *ssa.Function, v ssa.Value, depth int) (bool, string) {
 		return false, ""
 	}
 	switch x := v.(type) {
+	case *ssa.Parameter:
+		// a parameter of a local function: positive at every static call site
+		n := 0
+		for _, site := range c44CallSites(x.Parent()) {
+			n++
+			if ok, _ := c44Positive(site.Parent(), site.Common().Args[c44ParamIndex(x)], depth+1); !ok {
+				return false, ""
+			}
+		}
+		if n > 0 {
+			return true, "every caller passes a proven positive bound"
+		}
 	case *ssa.Const:
 		if x.Value != nil && x.Value.Kind() == constant.Int && constant.Sign(x.Value) > 0 {
 			return true, "constant " + x.Value.String()
@@ -967,9 +1435,31 @@ func c44ReachConst(e an.Edge, targets map[ssa.Instruction]bool) bool {
 	return c44ReachConstCut(e.From, e.From.Succs[e.Succ], nil, targets)
 }
 
-// c44ReachConstCut is the general form: start on the edge from -> b (from may
-// be nil for the function entry), never cross an edge in cut.
+// c44ReachConstCut: start on the edge from -> b (from may be nil for the
+// function entry), never cross an edge in cut.
 func c44ReachConstCut(from0, b0 *ssa.BasicBlock, cut an.EdgeSet, targets map[ssa.Instruction]bool) bool {
+	return c44Walk(c44WalkOpts{from: from0, to: b0, cut: cut, targets: targets})
+}
+
+// c44Assume: when the walk executes the keyed instruction, value v is taken to be b.
+type c44Assume struct {
+	v ssa.Value
+	b bool
+}
+
+type c44WalkOpts struct {
+	from, to *ssa.BasicBlock    // start on the edge from -> to (from nil = function entry), or
+	start    ssa.Instruction    // start right after this instruction
+	env      map[ssa.Value]bool // boolean values known at the start
+	cut      an.EdgeSet         // edges never crossed
+	assume   map[ssa.Instruction]c44Assume
+	targets  map[ssa.Instruction]bool
+}
+
+// c44Walk: can a target instruction be executed? Branches on boolean values
+// whose constant is known along the walked path (constant phi inputs, assumed
+// call results) are followed on the feasible side only.
+func c44Walk(o c44WalkOpts) bool {
 	type state struct {
 		b   *ssa.BasicBlock
 		env string
@@ -983,43 +1473,48 @@ func c44ReachConstCut(from0, b0 *ssa.BasicBlock, cut an.EdgeSet, targets map[ssa
 		sort.Strings(ks)
 		return strings.Join(ks, ",")
 	}
-	var walk func(from, b *ssa.BasicBlock, env map[ssa.Value]bool) bool
-	walk = func(from, b *ssa.BasicBlock, env map[ssa.Value]bool) bool {
-		// evaluate phis of b for the edge from -> b (parallel assignment)
+	var walk func(from, b *ssa.BasicBlock, env map[ssa.Value]bool, startIdx int) bool
+	walk = func(from, b *ssa.BasicBlock, env map[ssa.Value]bool, startIdx int) bool {
 		ne := map[ssa.Value]bool{}
 		for k, v := range env {
 			ne[k] = v
 		}
-		pi := -1
-		for i, p := range b.Preds {
-			if p == from {
-				pi = i
+		if startIdx == 0 {
+			// evaluate phis of b for the edge from -> b (parallel assignment)
+			pi := -1
+			for i, p := range b.Preds {
+				if p == from {
+					pi = i
+				}
 			}
+			for _, in := range b.Instrs {
+				phi, ok := in.(*ssa.Phi)
+				if !ok {
+					break
+				}
+				delete(ne, phi)
+				if pi < 0 {
+					continue
+				}
+				inc := phi.Edges[pi]
+				if k, ok := inc.(*ssa.Const); ok && k.Value != nil && k.Value.Kind() == constant.Bool {
+					ne[phi] = constant.BoolVal(k.Value)
+				} else if kv, ok := env[inc]; ok {
+					ne[phi] = kv
+				}
+			}
+			st := state{b, envKey(ne)}
+			if seen[st] {
+				return false
+			}
+			seen[st] = true
 		}
-		for _, in := range b.Instrs {
-			phi, ok := in.(*ssa.Phi)
-			if !ok {
-				break
-			}
-			delete(ne, phi)
-			if pi < 0 {
-				continue
-			}
-			inc := phi.Edges[pi]
-			if k, ok := inc.(*ssa.Const); ok && k.Value != nil && k.Value.Kind() == constant.Bool {
-				ne[phi] = constant.BoolVal(k.Value)
-			} else if kv, ok := env[inc]; ok {
-				ne[phi] = kv
-			}
-		}
-		st := state{b, envKey(ne)}
-		if seen[st] {
-			return false
-		}
-		seen[st] = true
-		for _, in := range b.Instrs {
-			if targets[in] {
+		for _, in := range b.Instrs[startIdx:] {
+			if o.targets[in] {
 				return true
+			}
+			if a, ok := o.assume[in]; ok {
+				ne[a.v] = a.b
 			}
 		}
 		if len(b.Instrs) > 0 {
@@ -1038,24 +1533,38 @@ func c44ReachConstCut(from0, b0 *ssa.BasicBlock, cut an.EdgeSet, targets map[ssa
 					if kv {
 						si = 0
 					}
-					if cut[an.Edge{From: b, Succ: si}] {
+					if o.cut[an.Edge{From: b, Succ: si}] {
 						return false
 					}
-					return walk(b, b.Succs[si], ne)
+					return walk(b, b.Succs[si], ne, 0)
 				}
 			}
 		}
 		for si, s := range b.Succs {
-			if cut[an.Edge{From: b, Succ: si}] {
+			if o.cut[an.Edge{From: b, Succ: si}] {
 				continue
 			}
-			if walk(b, s, ne) {
+			if walk(b, s, ne, 0) {
 				return true
 			}
 		}
 		return false
 	}
-	return walk(from0, b0, map[ssa.Value]bool{})
+	env := o.env
+	if env == nil {
+		env = map[ssa.Value]bool{}
+	}
+	if o.start != nil {
+		blk := o.start.Block()
+		idx := 0
+		for i, in := range blk.Instrs {
+			if in == o.start {
+				idx = i + 1
+			}
+		}
+		return walk(nil, blk, env, idx)
+	}
+	return walk(o.from, o.to, env, 0)
 }
 
 // c44SliceBuild walks a slice value back through append/phi to its make
@@ -1128,6 +1637,18 @@ func c44UpperBounded(fn *ssa.Function, v ssa.Value, fMax *types.Var, depth int) 
 		return f == fMax
 	}
 	switch x := v.(type) {
+	case *ssa.Parameter:
+		n := 0
+		for _, site := range c44CallSites(x.Parent()) {
+			n++
+			if ok, why := c44UpperBounded(site.Parent(), site.Common().Args[c44ParamIndex(x)], fMax, depth+1); !ok {
+				return false, "caller " + site.Parent().Name() + ": " + why
+			}
+		}
+		if n > 0 {
+			return true, ""
+		}
+		return false, "parameter " + x.Name() + " without a static caller"
 	case *ssa.Const:
 		if x.Value != nil && x.Value.Kind() == constant.Int {
 			if n, ok := constant.Int64Val(x.Value); ok && n == 1 {
@@ -1204,6 +1725,29 @@ func c44HasCidSend(g *ssa.Function) bool {
 		})
 	}
 	return found
+}
+
+// c44SendsDeep: the call tree of g sends on a CID channel.
+func c44SendsDeep(g *ssa.Function) bool {
+	for _, f := range c44Tree(g) {
+		found := false
+		an.Instrs(f, func(in ssa.Instruction) {
+			switch x := in.(type) {
+			case *ssa.Select:
+				if i, _ := c44SendState(x); i >= 0 {
+					found = true
+				}
+			case *ssa.Send:
+				if c44IsCidChan(x.Chan.Type()) {
+					found = true
+				}
+			}
+		})
+		if found {
+			return true
+		}
+	}
+	return false
 }
 
 // c44SendState returns the case index and the sent value of the (first) send
